@@ -106,6 +106,7 @@ func runC10(c *core.Ctx) {
 	c.RuleDoc("R10.3", "memoised info comes from the source")
 	c.RuleDoc("R10.4", "directory handle lists the source")
 	c.RuleDoc("R10.5", "a copy that was not written and closed successfully does not stay in the cache")
+	c.RuleDoc("R10.11", "the cache copy is chmod-ed with the source's whole mode")
 	c.RuleDoc("R10.10", "the cache copy is created with the source's mode itself")
 	c.RuleDoc("R10.9", "the fill reads a freshly opened (or rewound) source handle, it is never retried on a handle already read from")
 	c.RuleDoc("R10.8", "the cache's directory handle can be rewound with Seek like the source's")
@@ -118,32 +119,8 @@ func runC10(c *core.Ctx) {
 			c.Hard("anchor: cache FS type with source/cache fields, Open, Stat and fill function")
 			continue
 		}
-		tk := typeKey(sh.named)
-		// R10.1
-		var lookup, srcOpen *ssa.Call
-		ssax.Instrs(sh.open, func(ins ssa.Instruction) {
-			if cl := fieldInvoke(ins, sh.named, sh.cField, "Open"); cl != nil && lookup == nil {
-				lookup = cl
-			}
-			if cl := fieldInvoke(ins, sh.named, sh.srcField, "Open"); cl != nil {
-				srcOpen = cl
-			}
-		})
-		key := tk + ".Open|cache-before-source"
-		if lookup == nil || srcOpen == nil {
-			c.Bad("R10.1", key, p.Pos(sh.open.Pos()), fmt.Sprintf("%s.Open does not both look the name up in the cache and open the source (lookup=%v source=%v)", tk, lookup != nil, srcOpen != nil))
-		} else {
-			lerr := ssax.ErrorValueOf(lookup)
-			ok := false
-			for _, f := range ssax.FactsAtInstr(srcOpen) {
-				if ev, sent, is := isErrorsIs(f.Cond); is && f.Val && sent == "ErrNotExist" && ev == lerr {
-					ok = true
-				}
-			}
-			sameName := lookup.Call.Args[0] == srcOpen.Call.Args[0]
-			c.Check(ok && sameName, "R10.1", key, p.Pos(srcOpen.Pos()), "source opened only when the cache look-up of the same name answered ErrNotExist",
-				fmt.Sprintf("%s.Open opens the source without being on the ErrNotExist edge of the cache look-up of the same name (dominated=%v same-name=%v): a cached file would be re-read from the source, or another look-up failure would be papered over", tk, ok, sameName))
-		}
+		_ = typeKey(sh.named)
+		r10LookupBeforeSource(c, p, sh, "R10.1")
 		// R10.2
 		r10Rewind(c, p, sh, "R10.2")
 		// R10.3
@@ -159,12 +136,14 @@ func runC10(c *core.Ctx) {
 		r10NeverServeMark(c, p, sh, "R10.7")
 		r11FillOncePerHandle(c, p, sh, "R10.9")
 		r10CopyKeepsMode(c, p, sh)
+		r10CopyGetsWholeMode(c, p, sh)
 	}
 	c.Floor("R10.5", 2)
 	c.Floor("R10.7", 2)
 	c.Floor("R10.8", 1)
 	c.Floor("R10.9", 1)
 	c.Floor("R10.10", 1)
+	c.Floor("R10.11", 1)
 	c.Floor("R10.1", 1)
 	c.Floor("R10.2", 1)
 	c.Floor("R10.3", 1)
@@ -330,7 +309,9 @@ func r10Dir(c *core.Ctx, p *load.Program, sh *cacheShape) {
 		ssax.Instrs(fn, func(ins ssa.Instruction) {
 			if st, ok := ins.(*ssa.Store); ok {
 				if fa, ok := st.Addr.(*ssa.FieldAddr); ok && fieldVarOf(fa) == cursor {
-					if k, isK := ssax.ConstInt(st.Val); isK && k == 0 {
+					// the position is computed from the caller's offset for every whence (Seek(0, io.SeekStart) stores 0): a
+					// Seek that only knows the constant 0 answers Seek(0, io.SeekCurrent) with ErrInvalid where the source answers
+					if len(fn.Params) >= 2 && dependsOn(st.Val, func(v ssa.Value) bool { return v == ssa.Value(fn.Params[1]) }) {
 						rewinds = true
 					}
 				}
@@ -353,6 +334,7 @@ func runC11(c *core.Ctx) {
 	c.RuleDoc("R11.4", "fills of different paths share no byte buffer")
 	c.RuleDoc("R11.5", "no error of a step of the fill is dropped")
 	c.RuleDoc("R11.7", "a partial copy that could not be removed stays marked until it is removed (= R10.7)")
+	c.RuleDoc("R11.9", "only ErrNotExist of the cache look-up leads to a fill (= R10.1): any other error returns, a cached file is never refilled under live handles")
 	c.RuleDoc("R11.8", "a failed fill is never retried on the handle it already read from")
 	c.RuleDoc("R11.6", "the handle returned after a fill starts at offset 0 (= R10.2)")
 	for _, p := range c.Progs {
@@ -462,10 +444,12 @@ func runC11(c *core.Ctx) {
 		r10Rewind(c, p, sh, "R11.6")
 		r10NeverServeMark(c, p, sh, "R11.7")
 		r11FillOncePerHandle(c, p, sh, "R11.8")
+		r10LookupBeforeSource(c, p, sh, "R11.9")
 		// R11.5: no error of a step of the fill is dropped (a shadowed err in the copy branch loses the read or
 		// write fault: the fill reports success and the truncated file stays)
 		for _, f := range []*ssa.Function{sh.copy} {
-			bad, good := dropCheck(p, f, dropOpts{})
+			// accepted: ErrNotImplemented of an optional step (the cache FS offers no Chmod: the copy keeps the permission bits OpenFile gave it)
+			bad, good := dropCheck(p, f, dropOpts{acceptSentinel: func(s string) bool { return s == "ErrNotImplemented" }})
 			for _, g := range good {
 				c.OK("R11.5", g.Key, g.Pos, g.Msg)
 			}
@@ -493,6 +477,7 @@ func runC11(c *core.Ctx) {
 	c.Floor("R11.3", 1)
 	c.Floor("R11.7", 2)
 	c.Floor("R11.8", 1)
+	c.Floor("R11.9", 1)
 }
 
 func r11Fill(c *core.Ctx, p *load.Program, sh *cacheShape, ruleInvalidate, ruleClose string) {
@@ -836,5 +821,61 @@ func r10CopyKeepsMode(c *core.Ctx, p *load.Program, sh *cacheShape) {
 	})
 	if n == 0 {
 		c.Hard("anchor: creation of the cache file in the fill")
+	}
+}
+
+// r10CopyGetsWholeMode (R10.11): after the copy was written the fill chmods it with the source's mode: OpenFile applies
+// permission bits only, and from the second Open on the handle — and its Stat().Mode() — comes from the cache.
+func r10CopyGetsWholeMode(c *core.Ctx, p *load.Program, sh *cacheShape) {
+	fn := sh.copy
+	found := false
+	ssax.Instrs(fn, func(ins ssa.Instruction) {
+		cl, ok := ins.(*ssa.Call)
+		if !ok {
+			return
+		}
+		callee := ssax.StaticCallee(cl)
+		if callee == nil || callee.Name() != "Chmod" || pkgPathOf(callee) != mod || len(cl.Call.Args) != 3 {
+			return
+		}
+		if !isLoadOfNamedField(ssax.Unwrap(cl.Call.Args[0]), sh.named, sh.cField) {
+			return
+		}
+		if mc, ok := cl.Call.Args[2].(*ssa.Call); ok && mc.Call.IsInvoke() && mc.Call.Method.Name() == "Mode" {
+			found = true
+		}
+	})
+	c.Check(found, "R10.11", typeKey(sh.named)+".fill|copy-chmod-ed-with-the-source-mode", p.Pos(fn.Pos()), "the fill chmods the cache copy with info.Mode()",
+		fmt.Sprintf("%s never chmods the cache copy with the source's mode: OpenFile applies the permission bits only, so from the second Open on (served from the cache) Stat().Mode() of a setuid/setgid/sticky source file reports a mode without those bits", fname(fn)))
+}
+
+// r10LookupBeforeSource (R10.1 / R11.9): the source is opened for content only on the ErrNotExist edge of the cache
+// look-up of the same name; every other look-up error returns. (Under C11: a transient look-up error that counts as a
+// miss makes the fill truncate and rewrite a file that is already cached — handles returned earlier read a prefix.)
+func r10LookupBeforeSource(c *core.Ctx, p *load.Program, sh *cacheShape, rule string) {
+	tk := typeKey(sh.named)
+	var lookup, srcOpen *ssa.Call
+	ssax.Instrs(sh.open, func(ins ssa.Instruction) {
+		if cl := fieldInvoke(ins, sh.named, sh.cField, "Open"); cl != nil && lookup == nil {
+			lookup = cl
+		}
+		if cl := fieldInvoke(ins, sh.named, sh.srcField, "Open"); cl != nil {
+			srcOpen = cl
+		}
+	})
+	key := tk + ".Open|cache-before-source"
+	if lookup == nil || srcOpen == nil {
+		c.Bad(rule, key, p.Pos(sh.open.Pos()), fmt.Sprintf("%s.Open does not both look the name up in the cache and open the source (lookup=%v source=%v)", tk, lookup != nil, srcOpen != nil))
+	} else {
+		lerr := ssax.ErrorValueOf(lookup)
+		ok := false
+		for _, f := range ssax.FactsAtInstr(srcOpen) {
+			if ev, sent, is := isErrorsIs(f.Cond); is && f.Val && sent == "ErrNotExist" && ev == lerr {
+				ok = true
+			}
+		}
+		sameName := lookup.Call.Args[0] == srcOpen.Call.Args[0]
+		c.Check(ok && sameName, rule, key, p.Pos(srcOpen.Pos()), "source opened only when the cache look-up of the same name answered ErrNotExist",
+			fmt.Sprintf("%s.Open opens the source without being on the ErrNotExist edge of the cache look-up of the same name (dominated=%v same-name=%v): a cached file would be re-read from the source, or another look-up failure would be papered over", tk, ok, sameName))
 	}
 }
